@@ -424,6 +424,67 @@ func clientFacts() {
 		"the error branch of the per-shard callback ends with return")
 }
 
+// pipelineFacts: leader write path, quorum tracker, WAL sync.
+func pipelineFacts() {
+	lc := parse("server/leader_controller.go")
+	w := funcDecl(lc, "leaderController", "write")
+	wb := ""
+	if w != nil {
+		wb = squash(src(w.Body))
+	}
+	iLock := strings.Index(wb, "lc.appendLock.Lock() defer lc.appendLock.Unlock()")
+	iNext := strings.Index(wb, "lc.quorumAckTracker.NextOffset()")
+	iApp := strings.Index(wb, "walLog.AppendAndSync(")
+	add("writeHoldsAppendLockAcrossAllocAndAppend", "Bool", boolLean(iLock >= 0 && iLock < iNext && iNext < iApp && strings.Count(wb, "appendLock.Unlock()") == 1),
+		"server/leader_controller.go: (*leaderController).write",
+		"the offset allocation (NextOffset) and the WAL append (AppendAndSync) happen under lc.appendLock, released by defer")
+	iStat := strings.Index(wb, "checkStatusIsLeader(lc.status)")
+	add("writeChecksLeaderStatusBeforeAlloc", "Bool", boolLean(iStat >= 0 && iStat < iNext), "server/leader_controller.go: (*leaderController).write",
+		"the status check precedes the offset allocation")
+	q := parse("server/quorum_ack_tracker.go")
+	ack := funcDecl(q, "cursorAcker", "ack")
+	ab := ""
+	if ack != nil {
+		ab = squash(src(ack.Body))
+	}
+	nw := funcDecl(q, "", "NewQuorumAckTracker")
+	nb := ""
+	if nw != nil {
+		nb = squash(src(nw.Body))
+	}
+	nt := funcDecl(q, "quorumAckTracker", "notifyCommitOffsetAdvanced")
+	ntb := ""
+	if nt != nil {
+		ntb = squash(src(nt.Body))
+	}
+	okAck := strings.Contains(ab, "e.Set(c.cursorIdx) if uint32(e.Count()) == q.requiredAcks { delete(q.tracker, offset)") &&
+		strings.Contains(ab, "q.notifyCommitOffsetAdvanced(offset) }") &&
+		strings.Contains(nb, "requiredAcks: replicationFactor / 2,") &&
+		strings.HasPrefix(ntb, "{ q.commitOffset.Store(commitOffset) for _, r := range q.waitingRequests { if r.minOffset > commitOffset { return }")
+	add("trackerCommitsAtRequiredAcks", "Bool", boolLean(okAck), "server/quorum_ack_tracker.go: ack, NewQuorumAckTracker, notifyCommitOffsetAdvanced",
+		"an entry is committed when exactly RF/2 distinct cursors have acknowledged it; the commit offset is stored before the waiting requests are completed")
+	wl := parse("server/wal/wal_impl.go")
+	cn := funcDecl(wl, "wal", "checkNextOffset")
+	cb := ""
+	if cn != nil {
+		cb = squash(src(cn.Body))
+	}
+	add("walRejectsNonContiguousOffsets", "Bool", boolLean(strings.Contains(cb, "expectedOffset := lastAppendedOffset + 1 if lastAppendedOffset != InvalidOffset && nextOffset != expectedOffset { return errors.Wrapf(ErrInvalidNextOffset")),
+		"server/wal/wal_impl.go: (*wal).checkNextOffset", "an append whose offset is not lastAppended+1 is rejected")
+	rs := funcDecl(wl, "wal", "runSync")
+	rb := ""
+	if rs != nil {
+		rb = squash(src(rs.Body))
+	}
+	iDrain := strings.Index(rb, "callbacks = t.drainSyncRequestsChannel(callbacks)")
+	iSnap := strings.Index(rb, "lastAppendedOffset := t.lastAppendedOffset.Load()")
+	iStore := strings.Index(rb, "t.lastSyncedOffset.Store(lastAppendedOffset)")
+	iCb := strings.Index(rb, "for _, callback := range callbacks { callback(err) }")
+	add("walSyncCallbacksOnlyForFlushedEntries", "Bool", boolLean(iDrain >= 0 && iDrain < iSnap && iSnap < iStore && iStore < iCb),
+		"server/wal/wal_impl.go: (*wal).runSync",
+		"the sync requests are collected before the snapshot of the last appended offset is taken, the flush covers that offset, and the callbacks run after lastSyncedOffset is stored")
+}
+
 // moreFacts collects the facts of the other properties (added per property).
 func moreFacts() {
 	walFacts()
@@ -434,4 +495,5 @@ func moreFacts() {
 	notificationFacts()
 	selectorFacts()
 	clientFacts()
+	pipelineFacts()
 }
